@@ -51,6 +51,10 @@ def seed_network(cls, g, nodeless=False):
     H.nodes[N(2)]["mult"] = ("created", ["v1"])
     for e in list(H.edges)[:1]:
         H.edges[e]["mult"] = (2020, {"sources": [1]})
+    # node and edge attribute names are any hashable too (a year, a (layer, index) pair): set through the setters
+    H.set_node_attributes({N(2): {("layer", 1): 6}, N(1): {("layer", 1): 2, "node": 1}})
+    for e in list(H.edges)[:1]:
+        H.set_edge_attributes({e: {("layer", 1): 8, "idx": 3}})
     return H
 
 
